@@ -13,10 +13,12 @@ import (
 	"fmt"
 	"io/fs"
 	"os"
+	"os/exec"
 	"path/filepath"
 	"sort"
 	"strconv"
 	"strings"
+	"syscall"
 	"testing"
 	"time"
 
@@ -29,6 +31,18 @@ func TestMain(m *testing.M) { ev.Main(m, "C17") }
 
 // SB is replaced by the absolute sandbox path in plugin file paths.
 const SB = "${SB}"
+
+// Contents of a plugin file that stand for bytes only thriftrw itself can
+// tell: CoreSame is replaced at run time by exactly the bytes the core
+// generator produces for the destination the file's path means (learnt from a
+// preliminary run of the same command line without plugins in the same
+// sandbox), CoreOff by those bytes with one byte changed. When the destination
+// is not a core-generated file (or the preliminary run fails) both stand for
+// a fixed text.
+const (
+	CoreSame = "${CORE}"
+	CoreOff  = "${CORE~1}"
+)
 
 // File is a file of the sandbox, path relative to the sandbox root.
 type File struct {
@@ -55,11 +69,12 @@ type Case struct {
 	RelArgs    bool           `json:"rel_args"` // relative paths on the command line
 	Plugins    []fplab.Plugin `json:"plugins"`
 	// what the generator of the case knows about it
-	Modules    []string `json:"modules"`     // every module reachable from Main, Main first
-	Bad        *Bad     `json:"bad"`         // injected compile / generate failure
-	Ancestry   bool     `json:"ancestry"`    // a module lies outside ThriftRoot: must be rejected
-	MayReject  bool     `json:"may_reject"`  // the layout may legitimately be rejected
-	PathShapes []string `json:"path_shapes"` // labels of the plugin path shapes used (bookkeeping)
+	Modules    []string `json:"modules"`            // every module reachable from Main, Main first
+	Bad        *Bad     `json:"bad"`                // injected compile / generate failure
+	Ancestry   bool     `json:"ancestry"`           // a module lies outside ThriftRoot: must be rejected
+	MayReject  bool     `json:"may_reject"`         // the layout may legitimately be rejected
+	PathShapes []string `json:"path_shapes"`        // labels of the plugin path shapes used (bookkeeping)
+	Contents   []string `json:"contents,omitempty"` // labels of the contents of colliding plugin files (bookkeeping)
 	// Unwritable: a plugin path names the output dir itself or needs a file
 	// where a directory is (write-phase failure; beyond the literal statement,
 	// only used by the optional unwritable-path probe)
@@ -203,14 +218,21 @@ type Expect struct {
 	MayFail   string            // non-empty: the run may fail (and then leave no trace), for this reason
 	Core      []string          // out-relative paths of the core-generated files
 	Plugin    map[string][]byte // out-relative destination -> content
+	Source    map[string]Source // out-relative destination -> the plugin file it comes from
 	Conflicts []string          // descriptions
 	ConfKey   string            // classifier tail of the first conflict
+}
+
+// Source names a file of a plugin script.
+type Source struct {
+	Plugin int
+	Raw    string
 }
 
 // predict computes the expectation; sb is the absolute sandbox path (for
 // plugin paths that mention it).
 func predict(c Case, sb string) Expect {
-	e := Expect{Plugin: map[string][]byte{}}
+	e := Expect{Plugin: map[string][]byte{}, Source: map[string]Source{}}
 	// core files
 	root := c.ThriftRoot
 	if root == "" {
@@ -288,14 +310,27 @@ func predict(c Case, sb string) Expect {
 				if prev == "core" {
 					with = "core"
 				}
-				e.Conflicts = append(e.Conflicts, fmt.Sprintf("%s's %q and %s's %q both mean %q", prev, spelled[dest], p.Name, raw, dest))
+				// the contents do not matter to the statement; they are
+				// told apart in the classifier only
+				cont := "different"
+				switch mine := string(p.Script.Generate.Files[raw]); {
+				case prev == "core" && mine == CoreSame, prev != "core" && mine == string(e.Plugin[dest]):
+					cont = "identical"
+				case prev == "core" && mine == CoreOff:
+					cont = "one byte off"
+				}
+				e.Conflicts = append(e.Conflicts, fmt.Sprintf("%s's %q and %s's %q both mean %q (%s contents)", prev, spelled[dest], p.Name, raw, dest, cont))
 				if e.ConfKey == "" {
 					e.ConfKey = kind + "-path-not-reported/" + with
+					if cont == "identical" {
+						e.ConfKey += "/identical-contents"
+					}
 				}
 				continue
 			}
 			owner[dest], spelled[dest] = p.Name, raw
 			e.Plugin[dest] = p.Script.Generate.Files[raw]
+			e.Source[dest] = Source{Plugin: i, Raw: raw}
 		}
 	}
 	if len(e.Conflicts) > 0 && e.MustFail == "" {
@@ -331,6 +366,9 @@ func (e envError) Error() string { return "environment: " + e.err.Error() }
 
 // Result is what one run showed.
 type Result struct {
+	Plugins []fplab.Plugin // the plugins of the case with CoreSame / CoreOff contents resolved
+	CoreRun string         // how the preliminary run went ("" = not needed)
+
 	Obs   *fplab.Obs
 	Diff  []string
 	After map[string]entry
@@ -349,6 +387,142 @@ func writeFiles(sb string, files []File) error {
 		}
 	}
 	return nil
+}
+
+// needsCore reports whether a plugin file stands for core-generated bytes.
+func needsCore(c Case) bool {
+	for _, p := range c.Plugins {
+		for _, v := range p.Script.Generate.Files {
+			if s := string(v); s == CoreSame || s == CoreOff {
+				return true
+			}
+		}
+	}
+	return false
+}
+
+// hostArgs is the command line of the case without the --plugin flags.
+func hostArgs(c Case, sb string) (before []string, main string) {
+	arg := func(rel string) string {
+		if c.RelArgs {
+			if rel == "" {
+				return "."
+			}
+			return rel
+		}
+		return filepath.Join(sb, rel)
+	}
+	args := []string{"--out", arg(c.Out), "--pkg-prefix", "example.test/gen"}
+	if c.ThriftRoot != "" {
+		args = append(args, "--thrift-root", arg(c.ThriftRoot))
+	}
+	if c.NoRecurse {
+		args = append(args, "--no-recurse")
+	}
+	return args, arg(c.Main)
+}
+
+// populate creates the sandbox of the case.
+func populate(c Case, sb string) error {
+	if err := os.MkdirAll(sb, 0o755); err != nil {
+		return err
+	}
+	if err := writeFiles(sb, c.Thrift); err != nil {
+		return err
+	}
+	if err := writeFiles(sb, c.Pre); err != nil {
+		return err
+	}
+	if err := os.MkdirAll(filepath.Dir(filepath.Join(sb, c.Out)), 0o755); err != nil {
+		return err
+	}
+	if c.MkOut {
+		if err := os.MkdirAll(filepath.Join(sb, c.Out), 0o755); err != nil {
+			return err
+		}
+	}
+	return nil
+}
+
+// learnCore runs the command line of the case without plugins in a sandbox
+// at the very path the real run will use, and returns the files found beneath
+// the output dir that did not exist before or changed (out-relative path ->
+// bytes). The sandbox is removed again. A failing run teaches nothing.
+func learnCore(c Case, thriftrw, sb, work string) (map[string][]byte, string, error) {
+	defer os.RemoveAll(sb)
+	if err := populate(c, sb); err != nil {
+		return nil, "", err
+	}
+	before, err := snapshot(sb)
+	if err != nil {
+		return nil, "", err
+	}
+	args, main := hostArgs(c, sb)
+	cmd := exec.Command(thriftrw, append(args, main)...)
+	cmd.Dir = sb
+	cmd.Env = []string{"PATH=" + work, "HOME=" + work, "TMPDIR=" + work}
+	cmd.SysProcAttr = &syscall.SysProcAttr{Setpgid: true}
+	if err := cmd.Start(); err != nil {
+		return nil, "", err
+	}
+	done := make(chan error, 1)
+	go func() { done <- cmd.Wait() }()
+	select {
+	case err = <-done:
+	case <-time.After(240 * time.Second):
+		syscall.Kill(-cmd.Process.Pid, syscall.SIGKILL)
+		<-done
+		return nil, "timed-out", nil
+	}
+	if err != nil {
+		return nil, "failed", nil
+	}
+	after, err := snapshot(sb)
+	if err != nil {
+		return nil, "", err
+	}
+	core := map[string][]byte{}
+	for p, e := range after {
+		rel, ok := relTo(c.Out, p)
+		if !ok || !e.Mode.IsRegular() || before[p] == e {
+			continue
+		}
+		b, err := os.ReadFile(filepath.Join(sb, p))
+		if err != nil {
+			return nil, "", err
+		}
+		core[rel] = b
+	}
+	return core, "ok", nil
+}
+
+// resolveContents replaces CoreSame / CoreOff by the bytes they stand for.
+func resolveContents(ps []fplab.Plugin, core map[string][]byte, sb string) []fplab.Plugin {
+	out := make([]fplab.Plugin, len(ps))
+	for i, p := range ps {
+		q := p
+		if p.Script.Generate.Files != nil {
+			q.Script.Generate.Files = map[string][]byte{}
+			for k, v := range p.Script.Generate.Files {
+				if s := string(v); s == CoreSame || s == CoreOff {
+					dest, _ := cleanUnder(strings.ReplaceAll(k, SB, sb))
+					b, ok := core[dest]
+					switch {
+					case !ok || len(b) == 0:
+						v = []byte("no core-generated bytes known for this path\n")
+					case s == CoreSame:
+						v = append([]byte{}, b...)
+					default:
+						v = append([]byte{}, b...)
+						v[len(v)/2] ^= 0x01
+					}
+				}
+				q.Script.Generate.Files[k] = v
+			}
+		}
+		out[i] = q
+	}
+	return out
 }
 
 func runOnce(c Case) (*Result, error) {
@@ -375,23 +549,25 @@ func runOnce(c Case) (*Result, error) {
 			return nil, err
 		}
 	}
-	if err := writeFiles(sb, c.Thrift); err != nil {
-		return nil, err
-	}
-	if err := writeFiles(sb, c.Pre); err != nil {
-		return nil, err
-	}
-	if err := os.MkdirAll(filepath.Dir(filepath.Join(sb, c.Out)), 0o755); err != nil {
-		return nil, err
-	}
-	if c.MkOut {
-		if err := os.MkdirAll(filepath.Join(sb, c.Out), 0o755); err != nil {
+	// contents that stand for core-generated bytes: learn them first
+	resolved, coreRun := c.Plugins, ""
+	if needsCore(c) {
+		prework := filepath.Join(top, "prework")
+		if err := os.MkdirAll(prework, 0o755); err != nil {
 			return nil, err
 		}
+		core, how, err := learnCore(c, thriftrw, sb, prework)
+		if err != nil {
+			return nil, err
+		}
+		resolved, coreRun = resolveContents(c.Plugins, core, sb), how
+	}
+	if err := populate(c, sb); err != nil {
+		return nil, err
 	}
 	// plugins: substitute the sandbox path in returned file names
 	plugins := make([]fplab.Plugin, len(c.Plugins))
-	for i, p := range c.Plugins {
+	for i, p := range resolved {
 		q := p
 		if p.Script.Generate.Files != nil {
 			q.Script.Generate.Files = map[string][]byte{}
@@ -401,24 +577,9 @@ func runOnce(c Case) (*Result, error) {
 		}
 		plugins[i] = q
 	}
-	arg := func(rel string) string {
-		if c.RelArgs {
-			if rel == "" {
-				return "."
-			}
-			return rel
-		}
-		return filepath.Join(sb, rel)
-	}
-	args := []string{"--out", arg(c.Out), "--pkg-prefix", "example.test/gen"}
-	if c.ThriftRoot != "" {
-		args = append(args, "--thrift-root", arg(c.ThriftRoot))
-	}
-	if c.NoRecurse {
-		args = append(args, "--no-recurse")
-	}
+	args, mainArg := hostArgs(c, sb)
 	args = append(args, fplab.PluginArgs(plugins)...)
-	args = append(args, arg(c.Main))
+	args = append(args, mainArg)
 
 	before, err := snapshot(sb)
 	if err != nil {
@@ -432,7 +593,7 @@ func runOnce(c Case) (*Result, error) {
 	if err != nil {
 		return nil, err
 	}
-	r := &Result{Obs: o, Diff: diff(before, after), After: after, SB: sb, Files: map[string][]byte{}}
+	r := &Result{Plugins: resolved, CoreRun: coreRun, Obs: o, Diff: diff(before, after), After: after, SB: sb, Files: map[string][]byte{}}
 	for p, e := range after {
 		if rel, ok := relTo(c.Out, p); ok && e.Mode.IsRegular() {
 			b, err := os.ReadFile(filepath.Join(sb, p))
@@ -483,6 +644,10 @@ func judge(c Case, r *Result) error {
 		return ev.Errf("host/crash", "thriftrw crashed (signal %q): %s", o.Signal, clipS(o.Stderr, 1500))
 	}
 	e := predict(c, r.SB)
+	// the files have the bytes the plugins really returned
+	for dest, src := range e.Source {
+		e.Plugin[dest] = r.Plugins[src.Plugin].Script.Generate.Files[src.Raw]
+	}
 	// 1. confinement: nothing outside the output dir is touched, ever
 	for _, d := range r.Diff {
 		p := d[1:]
@@ -620,6 +785,12 @@ func runCase(t ev.TB, unit string, c Case) {
 	}
 	for _, s := range c.PathShapes {
 		cls = append(cls, "path:"+s)
+	}
+	for _, s := range c.Contents {
+		cls = append(cls, "contents:"+s)
+	}
+	if r != nil && r.CoreRun != "" {
+		cls = append(cls, "core-bytes-learnt:"+r.CoreRun)
 	}
 	if len(c.Pre) > 1 {
 		cls = append(cls, "prepopulated")
